@@ -313,6 +313,9 @@ func (d *decodeState) init(data []byte) *decodeState {
 	d.data = data
 	d.off = 0
 	d.savedError = nil
+	// The state comes from a pool: do not report the keys of an object that
+	// an earlier decode saw when this one does not set them.
+	d.lastKeys = nil
 	if d.errorContext != nil {
 		d.errorContext.Struct = nil
 		// Reuse the allocated space for the FieldStack slice.
@@ -1171,6 +1174,7 @@ func (d *decodeState) arrayInterface() []any {
 // objectInterface is like object but returns map[string]interface{}.
 func (d *decodeState) objectInterface() map[string]any {
 	m := make(map[string]any)
+	var keys []string
 	for {
 		// Read opening " of string key or closing }.
 		d.scanWhile(scanSkipSpace)
@@ -1202,6 +1206,7 @@ func (d *decodeState) objectInterface() map[string]any {
 
 		// Read value.
 		m[key] = d.valueInterface()
+		keys = append(keys, key)
 
 		// Next token must be , or }.
 		if d.opcode == scanSkipSpace {
@@ -1214,6 +1219,9 @@ func (d *decodeState) objectInterface() map[string]any {
 			panic(phasePanicMsg)
 		}
 	}
+	// Like object() for map targets: the most recently completed object is
+	// the outermost one when decoding ends.
+	d.lastKeys = keys
 	return m
 }
 
